@@ -69,7 +69,7 @@ func vGetLevels(t *topicLevelManager, topic string) ([]string, error) {
 func vLevel(label string, wildcards bool) string {
 	s := verifString(label, 1)
 	if wildcards {
-		verifAssume(s == "" || s == "a" || s == "b" || s == "+" || s == "#")
+		verifAssume(s == "" || s == "a" || s == "+" || s == "#")
 	} else {
 		verifAssume(s == "" || s == "a" || s == "b")
 	}
@@ -140,12 +140,19 @@ func verifC14_Trie() {
 	mgr := &TopicManager{root: newNode(), levelMgr: &topicLevelManager{}}
 	var subs [3][3]vSub // [client][filter]
 
+	pattern := verifBound("pattern") // 0: any operations; 1: subscribe, subscribe, then unsubscribe or disconnect
 	for step := 0; step < verifBound("operations"); step++ {
 		c := verifChoose("op.client", nc)
-		switch verifChoose("op.kind", 3) {
+		kind := 0
+		if pattern == 0 {
+			kind = verifChoose("op.kind", 3)
+		} else if step >= 2 {
+			kind = 1 + verifChoose("op.kind", 2)
+		}
+		switch kind {
 		case 0:
 			f := verifChoose("op.filter", nf)
-			q := byte(verifChoose("op.qos", 2))
+			q := byte(verifInt("op.qos", 0, 1))
 			mgr.subscribe([]string{names[f]}, []byte{q}, clients[c])
 			subs[c][f] = vSub{c, f, q, true}
 		case 1:
@@ -195,3 +202,5 @@ func verifC14_Trie() {
 		verifCover("all-removed")
 	}
 }
+
+func verifC14_TrieCleanup() { verifC14_Trie() }
